@@ -124,19 +124,20 @@ class Reifier:
             self.visit_object(kind.cls, val, depth + 1)
             return {"t": "ref", "id": name, "cls": kind.cls}
         if isinstance(kind, Seq):
-            items = self.parse_seq(val)
-            if items is None:
-                n = self.ev(z3.Length(term))
-                n = n.as_long() if z3.is_int_value(n) else 0
-                items = [self.ev(term[i]) for i in range(min(n, 8))]
-            return {"t": "seq", "items": [self.value(kind.elem, it, depth + 1) for it in items]}
+            n = self.ev(kind.len(term))
+            n = n.as_long() if z3.is_int_value(n) else 0
+            n = max(0, min(n, 12))
+            return {"t": "seq", "items": [self.value(kind.elem, kind.at(term, i), depth + 1) for i in range(n)]}
         if isinstance(kind, SetK):
             cands = self.string_candidates() if kind.elem == STR else []
             mem = self.array_members(term, kind.elem, cands)
             return {"t": "set", "items": [self.value(kind.elem, it, depth + 1) for it in mem]}
         if isinstance(kind, Map):
+            ks = Seq(kind.key)
             keys_t = kind.keys(term)
-            keys = self.parse_seq(self.ev(keys_t)) or []
+            nk = self.ev(ks.len(keys_t))
+            nk = max(0, min(nk.as_long() if z3.is_int_value(nk) else 0, 12))
+            keys = [self.ev(ks.at(keys_t, i)) for i in range(nk)]
             dom_members = self.array_members(kind.dom(term), kind.key, keys + (self.string_candidates() if kind.key == STR else []))
             allkeys, seen = [], set()
             for kx in list(keys) + dom_members:
